@@ -2,7 +2,8 @@
 import ast
 
 from ..model import AnalysisError
-from ..lib import FV, decode_new, decode_call, phi_members, is_sym, is_const, is_str, strip_stores, stores_of
+from ..lib import (FV, decode_new, decode_call, phi_members, is_sym, is_const, is_str, strip_stores, stores_of,
+                   find_assign, find_assigns, simple_assigns, local_term)
 from ..cfg import always_raises, walk_stmts
 from ..terms import r_sub, r_add
 from . import common as cm
@@ -95,15 +96,18 @@ def d2_state(chk, repo):
     st = [(s, val) for s, a, val, k in r.self_stores() if a == "_rotation"]
     ok = False
     if len(st) == 1:
-        t = r.term(st[0][1], at=st[0][0])
-        new = r.ev.term(ast.Name(id="rotation", ctx=ast.Load()), at=st[0][0])
-        from ..terms import r_mul
-        # the product is non-commutative: check the operand order in the source
+        # the product is non-commutative: check the operand order in the source.  The new rotation is whatever was
+        # built from the caller's arguments (scipy constructor or align_vectors); it must not involve the old state
         val = st[0][1]
+
+        def is_new(t_):
+            mem = phi_members(r.ctx, t_)
+            built = all((decode_call(r.ctx, m) or ("",))[0] == "dyn" or (r.ctx.head_of(m) or ("",))[0] == "sub" for m in mem)
+            return built and not r.ctx.mentions_or_eq(t_, r.spec("self._rotation")) and len(mem) == 2
         ok = isinstance(val, ast.BinOp) and isinstance(val.op, ast.Mult) and \
-            r.eq(r.term(val.left, at=st[0][0]), new) and r.eq(r.term(val.right, at=st[0][0]), r.spec("self._rotation"))
+            is_new(r.term(val.left, at=st[0][0])) and r.eq(r.term(val.right, at=st[0][0]), r.spec("self._rotation"))
         if isinstance(val, ast.Call) and isinstance(val.func, ast.Attribute) and val.func.attr == "__mul__":
-            ok = r.eq(r.term(val.func.value, at=st[0][0]), new) and r.eq(r.term(val.args[0], at=st[0][0]), r.spec("self._rotation"))
+            ok = is_new(r.term(val.func.value, at=st[0][0])) and r.eq(r.term(val.args[0], at=st[0][0]), r.spec("self._rotation"))
     chk.ob(ROT + ".rotate::composes-on-the-left", ok, "C18.D2",
            "self._rotation must become rotation * self._rotation (later rotations applied after earlier ones)", r.f,
            st[0][0] if st else None)
@@ -140,24 +144,23 @@ def d3_directions(chk, repo):
     want = r.spec("self._rotation.apply(O.array.reshape((-1, O.nvdim))[..., I]).reshape((*O.mesh.n, O.nvdim))[..., I.argsort()]",
                   env={"O": O, "I": idx})
     got = None
-    for st in r.stmts():
-        if isinstance(st, ast.Assign) and isinstance(st.targets[0], ast.Name) and st.targets[0].id == "rot_field":
-            t = r.term(st.value, at=st)
-            if not r.eq(t, r.spec("O.array", env={"O": O})):
-                got = (st, t)
+    vec = find_assign(r, lambda t_, s_: any(r.ctx.atoms[a_][0][:2] == ("call", ".apply") for a_ in r.ctx.all_atoms(t_)) and
+                      (r.ctx.head_of(t_) or ("",))[0] == "sub")
+    if vec:
+        got = (vec[0], vec[2])
     chk.ob(ROT + ".rotate::vectors-rotated-forward", got is not None and r.eq(got[1], want), "C18.D3",
            f"rot_field = {r.show(got[1])[:240] if got else None}; expected _rotation.apply on the components ordered by the axis "
            "mapping, restored with argsort", r.f, got[0] if got else None)
-    sc = any(isinstance(st, ast.Assign) and isinstance(st.targets[0], ast.Name) and st.targets[0].id == "rot_field" and
+    sc = any(isinstance(st, ast.Assign) and isinstance(st.targets[0], ast.Name) and vec is not None and st.targets[0].id == vec[1] and
              r.eq(r.term(st.value, at=st), r.spec("O.array", env={"O": O})) and
              any(pol and r.eq(r.ev.term(c_, at=geom._if_stmt(r, c_)), r.spec("O.nvdim == 1", env={"O": O}))
                  for c_, pol in r.cfg.path_condition(st)) for st in r.stmts())
     chk.ob(ROT + ".rotate::scalars-unchanged", sc, "C18.D3", "scalar values are not rotated", r.f)
     m = FV(repo, ROT + "._map_and_interpolate", param_types=PT)
     got = None
-    for st in m.stmts():
-        if isinstance(st, ast.Assign) and isinstance(st.targets[0], ast.Name) and st.targets[0].id == "new_pos_old_mesh":
-            got = (st, m.term(st.value, at=st))
+    back = find_assign(m, lambda t_, s_: (decode_call(m.ctx, t_) or ("",))[0] == ".apply")
+    if back:
+        got = (back[0], back[2])
     pos = m.spec("df.Field(mesh=new_mesh, nvdim=3, value=lambda x: x).array.reshape((-1, 3)) - self._orig_field.mesh.region.center")
     ok = got is not None and m.eq(got[1], m.spec("self._rotation.inv().apply(P)", env={"P": pos}))
     chk.ob(ROT + "._map_and_interpolate::positions-rotated-back", ok, "C18.D3",
@@ -210,16 +213,21 @@ def d4_geometry(chk, repo):
                         s2.value.func.attr == "append":
                     tt = w.term(s2.value.args[0], at=s2)
                     O = w.spec("self._orig_field")
-                    want = w.spec("np.array([pmin[i] - cell[i] * tol, *np.linspace(pmin[i] + cell[i] / 2, pmax[i] - cell[i] / 2, O.mesh.n[i]), "
-                                  "pmax[i] + cell[i] * tol]) - O.mesh.region.center[i]", at=s2, env={"i": i, "O": O})
+                    want = w.spec("np.array([lo[i] - c[i] * 1e-09, *np.linspace(lo[i] + c[i] / 2, hi[i] - c[i] / 2, O.mesh.n[i]), "
+                                  "hi[i] + c[i] * 1e-09]) - O.mesh.region.center[i]",
+                                  env={"i": i, "O": O, "lo": w.spec("O.mesh.region.pmin", env={"O": O}),
+                                       "hi": w.spec("O.mesh.region.pmax", env={"O": O}), "c": w.spec("O.mesh.cell", env={"O": O})})
                     okg = w.eq(tt, want)
     chk.ob(ROT + "._create_interpolation_funcs::grid-from-centre", okg, "C18.D4",
            "grid points per axis: cell centres (plus the two faces) of the original mesh measured from its centre, same axis i "
            "throughout", w.f)
     okp = False
-    for st in w.stmts():
-        if isinstance(st, ast.Assign) and isinstance(st.targets[0], ast.Name) and st.targets[0].id == "m":
-            okp = w.eq(w.term(st.value, at=st), w.spec("np.pad(rot_field_component, pad_width=[(1, 1), (1, 1), (1, 1)], mode='edge')"))
+    pd = find_assign(w, lambda t_, s_: (decode_call(w.ctx, t_) or ("",))[0] == "np.pad")
+    if pd:
+        okp = w.eq(pd[2], w.spec("np.pad(rot_field_component, pad_width=[(1, 1), (1, 1), (1, 1)], mode='edge')"))
+        # and it is the padded array that is interpolated
+        c_ = decode_call(w.ctx, t)
+        okp = okp and bool(c_ and len(c_[1]) >= 2 and w.eq(c_[1][1], pd[2]))
     chk.ob(ROT + "._create_interpolation_funcs::edge-padding", okp, "C18.D4",
            "values are extended by one edge cell on every side to match the face grid points", w.f)
     r = FV(repo, ROT + ".rotate", param_types=PT)
